@@ -8,12 +8,21 @@
 package main
 
 import (
+	"bytes"
+	"context"
+	"encoding/base64"
 	"encoding/json"
+	"errors"
 	"fmt"
+	"github.com/notaryproject/notation-go/plugin"
+	"github.com/notaryproject/notation-go/plugin/proto"
+	pf "github.com/notaryproject/notation-plugin-framework-go/plugin"
 	"os"
 	"os/exec"
 	"path/filepath"
+	"runtime/debug"
 	"strings"
+	"sync"
 	"syscall"
 	"time"
 
@@ -389,6 +398,7 @@ func main() {
 	}
 	lib.Parallel(len(small), 16, func(i int) { run(small[i]) }, r.PanicViolation("harness"))
 	lib.Parallel(len(big), 3, func(i int) { run(big[i]) }, r.PanicViolation("harness"))
+	concurrentCalls(r, scratch, workerCopy, wb)
 	r.RequireAtLeast("calls-succeeded", 5)
 	r.RequireAtLeast("error-typing-checked", 20)
 	r.RequireAtLeast("big-output-cases", 2)
@@ -425,4 +435,80 @@ func killHolders(scratch string) {
 			syscall.Kill(pid, syscall.SIGKILL)
 		}
 	}
+}
+
+// concurrentCalls: ten plugins called at once from one host process (this one), each reply stamped with its plugin's
+// name and padded to a different length. Every call must return ITS process's reply - a success with exactly that
+// plugin's key, or that plugin's own structured error; nothing of another call in flight.
+func concurrentCalls(r *lib.Run, scratch, workerCopy string, wb []byte) {
+	ctx := context.Background()
+	const nOK, nFail = 8, 2
+	rounds := r.N(15, 120)
+	type plug struct {
+		name  string
+		p     *plugin.CLIPlugin
+		fail  bool
+		stamp byte
+	}
+	var plugs []plug
+	for i := 0; i < nOK+nFail; i++ {
+		nm := fmt.Sprintf("conc%d", i)
+		dir := filepath.Join(scratch, "concurrent", nm)
+		os.MkdirAll(dir, 0o755)
+		exe := filepath.Join(dir, "notation-"+nm)
+		if err := os.Link(workerCopy, exe); err != nil {
+			os.WriteFile(exe, wb, 0o755)
+		}
+		// replies of a few MiB (a raw signature / an error message consisting of the plugin's stamp byte), so that decoding
+		// one reply takes as long as another call needs to start its process
+		stamp := bytes.Repeat([]byte{byte('A' + i)}, (2<<20)+i*4099)
+		b := behavior{Stdout: fmt.Sprintf(`{"keyId":"%s-key","signature":%q,"signingAlgorithm":"ECDSA-SHA-256","certificateChain":[%q]}`, nm, base64.StdEncoding.EncodeToString(stamp), base64.StdEncoding.EncodeToString([]byte(nm)))}
+		if i >= nOK {
+			b = behavior{Exit: 1, Stderr: fmt.Sprintf(`{"errorCode":"VALIDATION_ERROR","errorMessage":"%s says no %s"}`, nm, stamp)}
+		}
+		bj, _ := json.Marshal(map[string]behavior{"*": b})
+		os.WriteFile(exe+".behavior.json", bj, 0o644)
+		p, err := plugin.NewCLIPlugin(ctx, nm, exe)
+		if err != nil {
+			panic(err)
+		}
+		plugs = append(plugs, plug{nm, p, i >= nOK, byte('A' + i)})
+	}
+	var wg sync.WaitGroup
+	for _, pl := range plugs {
+		wg.Add(1)
+		go func(pl plug) {
+			defer wg.Done()
+			for k := 0; k < rounds; k++ {
+				id := fmt.Sprintf("concurrent|%s|%d", pl.name, k)
+				r.Eval(id)
+				var resp *pf.GenerateSignatureResponse
+				var err error
+				func() {
+					defer func() {
+						if p := recover(); p != nil {
+							err = fmt.Errorf("host panicked: %v", p)
+							r.Violation(map[string]string{"kind": "concurrent-calls", "why": "panic"}, fmt.Sprintf("%s: the host panicked with %d plugin calls in flight: %v", id, len(plugs), p), string(debug.Stack()))
+						}
+					}()
+					resp, err = pl.p.GenerateSignature(ctx, &pf.GenerateSignatureRequest{ContractVersion: "1.0", KeyID: pl.name + "-key", KeySpec: "EC-256", Hash: "SHA-256", Payload: []byte("p")})
+				}()
+				r.Event("concurrent-calls")
+				switch {
+				case pl.fail:
+					var re proto.RequestError
+					if err == nil || !errors.As(err, &re) || !strings.HasPrefix(re.Err.Error(), pl.name+" says no ") || strings.Trim(strings.TrimPrefix(re.Err.Error(), pl.name+" says no "), string(pl.stamp)) != "" {
+						r.Violation(map[string]string{"kind": "concurrent-calls", "why": "foreign-or-lost-error"}, fmt.Sprintf("%s: the process exited 1 printing its structured error; with %d calls in flight the call returned resp-nil=%v err=%.200v", id, len(plugs), resp == nil, err), nil)
+					}
+				case err != nil || resp == nil || resp.KeyID != pl.name+"-key" || len(resp.Signature) < 2<<20 || len(bytes.Trim(resp.Signature, string(pl.stamp))) != 0 || len(resp.CertificateChain) != 1 || string(resp.CertificateChain[0]) != pl.name:
+					what := fmt.Sprintf("err=%.200v", err)
+					if resp != nil {
+						what = fmt.Sprintf("keyId=%q, %d signature bytes of which %d are not this plugin's stamp, chain=%q", resp.KeyID, len(resp.Signature), len(bytes.Trim(resp.Signature, string(pl.stamp))), resp.CertificateChain)
+					}
+					r.Violation(map[string]string{"kind": "concurrent-calls", "why": "foreign-or-lost-reply"}, fmt.Sprintf("%s: the process exited 0 with its own reply; with %d calls in flight the call returned %s", id, len(plugs), what), nil)
+				}
+			}
+		}(pl)
+	}
+	wg.Wait()
 }
